@@ -574,6 +574,8 @@ def compare(I, fr, op, l, r, node):
                 res = True
             elif r.dmay is not None and l.const not in r.dmay:
                 res = False
+        elif r.kind == K_DICT and r.dmay is not None and not r.dmay and r.elem is None:
+            res = False  # nothing is a key of a dictionary known to be empty
         elif r.items is not None and l.has_const() and all(i.has_const() for i in r.items):
             res = any(type(i.const) == type(l.const) and i.const == l.const for i in r.items)
         elif r.kind == K_STR and l.kind == K_STR and l.has_const() and r.has_const():
@@ -930,7 +932,7 @@ def nd_attr(I, fr, base, attr, node):
         return AV(kind=K_OBJ, note="dtype", dtype=b.dtype, tags=b.tags | frozenset(["dtype-of"]))
     if attr in ("real", "imag"):
         return b.replace(dtype="real" if b.dtype in ("complex", "real") else b.dtype, const=_NOCONST,
-                         sign=b.sign if (attr == "real" and b.dtype != "complex") else S_ANY)
+                         sign=b.sign if (attr == "real" and b.dtype != "complex") else S_ANY, tags=b.tags | frozenset([attr]))
     if attr == "flat":
         return b.replace(shape=None)
     return None
@@ -1398,6 +1400,38 @@ def call_method(I, fr, name, base, args, kwargs, node):
                     dv.pop(k, None)
                     return a.replace(dvals=dv, dmust=(a.dmust or frozenset()) - {k},
                                      dmay=None if a.dmay is None else a.dmay - {k})
+                if name == "update":
+                    # d.update(other): the keys `other` has for certain are overwritten, the keys it may have are joined; an `other` whose
+                    # keys are not enumerated may overwrite every entry
+                    src = args[0] if args else None
+                    dv = dict(a.dvals or {})
+                    must = set(a.dmust or ())
+                    if src is not None and src.kind == K_DICT:
+                        for k, v in (src.dvals or {}).items():
+                            if k in (src.dmust or ()):
+                                dv[k] = v
+                                must.add(k)
+                            else:
+                                dv[k] = join_av(dv[k], v) if k in dv else v
+                        closed = src.dmay is not None and src.elem is None
+                        if not closed:
+                            un = src.elem if src.elem is not None else top_av(True, "dict.update", ())
+                            for k in list(dv):
+                                if k not in (src.dvals or {}):
+                                    dv[k] = join_av(dv[k], un)
+                        for k, v in kwargs.items():
+                            dv[k] = v
+                            must.add(k)
+                        may = None if (a.dmay is None or not closed) else frozenset(a.dmay) | frozenset(src.dmay) | frozenset(kwargs)
+                        return a.replace(dvals=dv, dmust=frozenset(must), dmay=may)
+                    if src is None:
+                        for k, v in kwargs.items():
+                            dv[k] = v
+                            must.add(k)
+                        return a.replace(dvals=dv, dmust=frozenset(must),
+                                         dmay=None if a.dmay is None else frozenset(a.dmay) | frozenset(kwargs))
+                    un = top_av(True, "dict.update", ())
+                    return a.replace(dvals={k: join_av(v, un) for k, v in dv.items()}, dmay=None, dmust=a.dmust or frozenset())
                 return a.replace(dmay=None, dmust=frozenset())
             I.mutate(fr, base, node, "dict." + name, upd, strong=True)
             return top_av(False, "dict." + name, ()) if name in ("pop", "setdefault") else const_av(None)
